@@ -211,6 +211,11 @@ def r_stats(name):
                         tw[j][g == grp] = np.asarray(got)[j][g == grp]  # branch decided by rounding noise: not compared
             return (np.asarray(got),), (tw,)
         xm = np.array(case["mk"], dtype="float64").astype(dt)
+        if case.get("mk_nan") and xm.dtype.kind == "f" and name in ("stats.mann_kendall_trend_1d", "stats.mann_kendall_trend_yxt",
+                                                                     "stats._mann_kendall_trend_gu", "stats._mann_kendall_trend_gu_nd"):
+            # float series may hold NaN cells: the source has a definite (NumPy) meaning for them, which the compiled code must share
+            for q in case["nd_pos"]:
+                xm[q % n] = np.nan
         if name == "stats.mk_score":
             return nj(name, (xm,), twin_args=(_widen(xm),))
         if name == "stats.mk_variance_s":
@@ -488,6 +493,8 @@ def pcase(draw, name):
             "gap": draw(st.sampled_from([1, 5, 10])), "tail": draw(st.integers(0, 6)), "per": draw(st.sampled_from([1, 7, 10]))}
     if draw(st.integers(0, 2)) == 0:
         case["layout"] = "strided"
+    if draw(st.integers(0, 2)) == 0:
+        case["mk_nan"] = True
     return case
 
 
